@@ -246,7 +246,8 @@ def drains(fn, cont):
 
 def _is_fresh_copy(e, name: str) -> bool:
     """`e` is a copy of the tensor `name` with its own storage: name.clone(), torch.clone(name), possibly with detach() on either side."""
-    while isinstance(e, ast.Call) and isinstance(e.func, ast.Attribute) and e.func.attr == "detach" and not e.args:
+    # detach() / contiguous() of a copy are the copy (or another tensor of its own)
+    while isinstance(e, ast.Call) and isinstance(e.func, ast.Attribute) and e.func.attr in ("detach", "contiguous") and not e.args:
         e = e.func.value
     if isinstance(e, ast.Call) and isinstance(e.func, ast.Attribute) and e.func.attr == "clone" and not e.args:
         inner = e.func.value
